@@ -108,6 +108,9 @@ def conclude(prop, tier, seed, mod, cresults, obligations, wall, extra_info=None
     proved = by_status.get('proved', [])
     refuted = by_status.get('refuted', [])
     unknown = by_status.get('unknown', []) + by_status.get('error', []) + by_status.get(None, [])
+    for cr in cresults:
+        if getattr(cr, 'vacuous_return', False) and cr.status == 'ok' and all(o.status == 'proved' for o in cr.obligations):
+            cr.status, cr.reason = 'error', 'vacuous: no returning path and every raising path is justified (outcomes %s)' % cr.outcomes
     undecided_contracts = [cr for cr in cresults if cr.status == 'undecided']
     error_contracts = [cr for cr in cresults if cr.status == 'error']
 
